@@ -3,6 +3,7 @@
  * checked after EVERY operation (DESIGN.md section 5, C06).
  */
 #include "mon.h"
+#include <limits.h>
 
 #include <aws/common/common.h>
 #include <aws/common/error.h>
@@ -15,7 +16,8 @@
 #define MAX_ITEM 300
 
 enum { F_LATE_HANDLES, F_SLICED, F_REMOVE_MIDDLE, F_DEAD_REFUSED, F_STATIC_FULL, F_GREW, F_CLEAR_LIVE, F_DUP_MIN,
-       F_STATIC_HANDLE_REFUSED, F_REMOVE_ROOT, F_REMOVE_LAST, F_EMPTY_POP };
+       F_STATIC_HANDLE_REFUSED, F_REMOVE_ROOT, F_REMOVE_LAST, F_EMPTY_POP, F_CMP_THREE_WAY, F_CMP_BOOLEAN, F_CMP_DIFFERENCE,
+       F_CMP_EXTREMES };
 
 struct elem {
     uint8_t bytes[MAX_ITEM];
@@ -41,6 +43,25 @@ static void *s_static_store;
 static int s_cmp(const void *a, const void *b) {
     uint8_t ka = *(const uint8_t *)a, kb = *(const uint8_t *)b;
     return (ka > kb) - (ka < kb);
+}
+
+/* The comparator handed to the library. priority_queue.h: "should return a positive value if the second argument has a
+ * higher priority than the first; otherwise a negative value or zero", with `return a > b;` as its min-heap example.
+ * All four styles order the keys identically; only sign conventions and magnitudes of the results differ. */
+enum { CMP_THREE_WAY, CMP_BOOLEAN, CMP_DIFFERENCE_SCALED, CMP_EXTREMES, CMP_NSTYLES };
+static int s_cmp_style;
+static int s_cmp_lib(const void *a, const void *b) {
+    uint8_t ka = *(const uint8_t *)a, kb = *(const uint8_t *)b;
+    switch (s_cmp_style) {
+        case CMP_BOOLEAN:
+            return ka > kb;
+        case CMP_DIFFERENCE_SCALED:
+            return ((int)ka - (int)kb) * 4000037;
+        case CMP_EXTREMES:
+            return ka > kb ? INT_MAX : ka < kb ? INT_MIN : 0;
+        default:
+            return (ka > kb) - (ka < kb);
+    }
 }
 
 static void make_item(struct mon_rng *r, uint8_t *out) {
@@ -205,15 +226,18 @@ static void run_case(uint64_t case_idx) {
     }
     mon_fp(s_item);
     mon_fp(s_static);
+    s_cmp_style = (int)mon_below(r, CMP_NSTYLES);
+    mon_fp((uint64_t)s_cmp_style);
+    mon_flag(F_CMP_THREE_WAY + s_cmp_style);
     size_t init_cap = 0;
     if (s_static) {
         s_static_cap = 1 + (size_t)mon_below(r, 16);
         s_static_store = mon_fence_new(s_static_cap * s_item);
-        aws_priority_queue_init_static(&s_q, s_static_store, s_static_cap, s_item, s_cmp);
+        aws_priority_queue_init_static(&s_q, s_static_store, s_static_cap, s_item, s_cmp_lib);
         init_cap = s_static_cap;
     } else {
         init_cap = (size_t)mon_below(r, 9);
-        if (aws_priority_queue_init_dynamic(&s_q, alloc, init_cap, s_item, s_cmp)) {
+        if (aws_priority_queue_init_dynamic(&s_q, alloc, init_cap, s_item, s_cmp_lib)) {
             mon_violation("C06:init", "init_dynamic(%zu,%zu) failed", init_cap, s_item);
             return;
         }
@@ -523,7 +547,8 @@ int main(int argc, char **argv) {
     aws_common_library_init(aws_default_allocator());
     static const char *names[] = {"handle_array_created_late", "sliced_swap_item_gt_128", "remove_middle", "dead_handle_refused",
                                   "static_full_refused", "dynamic_growth", "clear_with_live_handles", "duplicate_min_keys",
-                                  "static_handle_refused", "remove_root", "remove_last", "pop_on_empty"};
+                                  "static_handle_refused", "remove_root", "remove_last", "pop_on_empty", "comparator_three_way",
+                                  "comparator_boolean_a_gt_b", "comparator_scaled_difference", "comparator_INT_MIN_INT_MAX"};
     for (int i = 0; i < (int)(sizeof(names) / sizeof(names[0])); ++i) {
         mon_flag_name(i, names[i]);
     }
@@ -531,7 +556,7 @@ int main(int argc, char **argv) {
     while (mon_next_case(&c)) {
         mon_case_begin(c);
         run_case(c);
-        mon_case_end(mon_flag_count() >= 3);
+        mon_case_end(mon_flag_count() >= 4);
     }
     return mon_finish();
 }
